@@ -26,6 +26,9 @@ def scenarios(pid, tier, rng):
                     scs.append({"loops": loops, "submitters": m, "per": per, "body": body, "join": False, "max": 64})
         scs.append({"loops": 3, "submitters": 1, "per": 3 * 256 + 40, "body": "trivial", "join": False, "max": 64})
         scs.append({"loops": 3, "submitters": 4, "per": 200, "body": "trivial", "join": False, "max": 64})
+        # submissions held between the count and the insert of their push into the shared queue while the loops poll
+        for loops in (1, 2):
+            scs.append({"loops": loops, "submitters": 2, "per": 24, "body": "trivial", "join": False, "max": 64, "gap_every": 5})
         if thorough:
             for i in range(10):
                 scs.append({"loops": rng.choice([1, 2, 3, 4]), "submitters": rng.choice([2, 4, 8]), "per": rng.choice([100, 400]),
